@@ -56,3 +56,19 @@ Theorem C03_blocks_are_specified :
     reachable data_len enc_empty collect n false level chunks s ->
     In wb (written s) -> @SpecW Data Enc data_len enc_empty collect chunks wb.
 Proof. exact written_specified. Qed.
+
+(* non-vacuity: the same two chunks (the first is cut into two blocks) compressed
+   with 1 worker and with 3 workers under different round-robin interleavings:
+   both runs are complete and write the same three blocks *)
+Definition ex_data := (N * list N)%type.
+Definition ex_len (d : ex_data) : N := fst d.
+Definition ex_collect (e : N) (d : ex_data) : N * ex_data * bool :=
+  match snd d with [] => ((e + fst d)%N, (0%N, []), true) | l :: r => ((e + (fst d - l))%N, (l, r), true) end.
+Definition ex_input : list ex_data := [(100000%N, [20000%N; 0%N]); (5000%N, [0%N])].
+
+Example C03_example_two_runs :
+  let s1 := rr ex_len 0%N ex_collect 60 [TM; TS; TR; TW 0] (init N 1 false 1%N ex_input) in
+  let s2 := rr ex_len 0%N ex_collect 60 [TW 2; TW 1; TW 0; TR; TS; TM] (init N 3 false 1%N ex_input) in
+  final s1 = true /\ final s2 = true /\ written s1 = written s2 /\
+  map (@wb_enc N) (written s1) = [80000; 20000; 5000]%N.
+Proof. vm_compute. repeat split; reflexivity. Qed.
